@@ -147,11 +147,29 @@ def field_cases(r, rec, nfields):
             phi_s = phi_c.subs(to_cart, simultaneous=True)
             Fs_cart = [c.subs(to_cart, simultaneous=True) for c in Fc]
             Fs = [sum(Fs_cart[k] * sym_basis[i][k] for k in range(3)) for i in range(3)]
+            # the three ways a field can be given: from_expression / from_vector, a stored expression, a point function
+            way = r.choice(["from", "stored", "callable"])
+            rec.hit("construction:" + way)
+
+            def subs_point(e_, p_):
+                e_ = sympy.sympify(e_)
+                for i_, sc in enumerate(b):
+                    e_ = e_.subs(sc, p_.coordinate(i_))
+                return e_
+            if way == "from":
+                sfield = ScalarField.from_expression(phi_s, cs)
+                vfield = VectorField.from_vector(Vector(Fs, cs))
+            elif way == "stored":
+                sfield = ScalarField(phi_s, cs)
+                vfield = VectorField(list(Fs), cs)
+            else:
+                sfield = ScalarField(lambda p_, e_=phi_s: subs_point(e_, p_), cs)
+                vfield = VectorField(lambda p_, es_=tuple(Fs): [subs_point(e_, p_) for e_ in es_], cs)
             try:
                 with harness.Watchdog(120):
-                    g_lib = gradient_operator(ScalarField.from_expression(phi_s, cs))
-                    d_lib = divergence_operator(VectorField.from_vector(Vector(Fs, cs)))
-                    c_lib = curl_operator(VectorField.from_vector(Vector(Fs, cs))).apply_to_basis()
+                    g_lib = gradient_operator(sfield)
+                    d_lib = divergence_operator(vfield)
+                    c_lib = curl_operator(vfield).apply_to_basis()
             except TimeoutError:
                 rec.inconc("watchdog in operators")
                 continue
